@@ -98,6 +98,8 @@ Record FRel (p : fpend) (st : wstate) (m : m14) : Prop := {
               (exists m0, In (ILock m0 (LPqCancelSet q)) (tcont (thr st t))) \/ pcancel (pps st q) = true;
   f_own_cs : forall t m0 q, In (ILock m0 (LPqCancelSet q)) (tcont (thr st t)) -> t = main /\ tcur (thr st t) = Some (CPDrop q) /\ pexists (pps st q) = true;
   f_late_cur : forall t, is_late m t -> exists c, tcur (thr st t) = Some c /\ wcmd c;
+  f_late_in : forall t, In t (map fst (m14_late m)) -> tcur (thr st t) <> None;
+  f_late_nd : NoDup (map fst (m14_late m));
   f_own_ret : forall t m0 v, In (IUnlock m0 (URet v)) (tcont (thr st t)) ->
               (forall q x, tcur (thr st t) <> Some (CPSend q x)) /\ (forall z, v = RVal z -> tcur (thr st t) = Some CRecv /\ wkr st t);
   f_own_pr : forall t i, In i (tcont (thr st t)) ->
@@ -151,6 +153,8 @@ Proof.
   - apply (f_dropcmd _ _ _ R).
   - apply (f_own_cs _ _ _ R).
   - intros t L. apply La in L. apply (f_late_cur _ _ _ R t L).
+  - rewrite M4. apply (f_late_in _ _ _ R).
+  - rewrite M4. apply (f_late_nd _ _ _ R).
   - apply (f_own_ret _ _ _ R).
   - apply (f_own_pr _ _ _ R).
   - apply (f_pr _ _ _ R).
@@ -343,6 +347,8 @@ Section FStep.
       destruct (f_dropcmd _ _ _ R u q Hcu Np) as [A|A]; [left; exact A|right; apply Pc; exact A].
     - intros u m0 q Hin. destruct (Nat.eq_dec u t) as [->|Hu]; [apply (O_own_cs m0 q Hin)|]. rewrite (Co u Hu) in Hin. rewrite Cu, Pe. apply (f_own_cs _ _ _ R u m0 q Hin).
     - intros u L. apply La in L. rewrite Cu. apply (f_late_cur _ _ _ R u L).
+    - intros u. rewrite M4, Cu. apply (f_late_in _ _ _ R).
+    - rewrite M4. apply (f_late_nd _ _ _ R).
     - intros u m0 v Hin. destruct (Nat.eq_dec u t) as [->|Hu]; [apply (O_own_ret m0 v Hin)|]. rewrite (Co u Hu) in Hin. rewrite Cu. destruct (f_own_ret _ _ _ R u m0 v Hin) as [A B]. split; [exact A|]. intros z Ez. destruct (B z Ez) as [B1 B2]. split; [exact B1|apply fs_wkr; exact B2].
     - intros u j Hin. destruct (Nat.eq_dec u t) as [->|Hu]; [apply (O_own_pr j Hin)|]. rewrite (Co u Hu) in Hin. rewrite Cu, Tp. destruct (f_own_pr _ _ _ R u j Hin) as [A [B C]]. split; [intros m0 q E; destruct (A m0 q E) as [A1 A2]; split; [apply fs_wkr; exact A1|exact A2]|split; [intros m0 q E; destruct (B m0 q E) as [B1 B2]; split; [apply fs_wkr; exact B1|exact B2]|intros m0 q x E; destruct (C m0 q x E) as [C1 C2]; split; [apply fs_wkr; exact C1|exact C2]]].
     - intros u c Hcu Wc. destruct (Nat.eq_dec u t) as [->|Hu]; [apply (O_pr c Hcu Wc)|]. rewrite Cu in Hcu. rewrite (Co u Hu), (Htr u Hu). apply (f_pr _ _ _ R u c Hcu Wc).
@@ -1017,6 +1023,8 @@ Proof.
   - intros t q. rewrite Cu, Co, Epp. apply (f_dropcmd _ _ _ R).
   - intros t m0 q. rewrite Co, Cu, Epp. apply (f_own_cs _ _ _ R).
   - intros t. rewrite Cu. apply (f_late_cur _ _ _ R).
+  - intros t. rewrite Cu. apply (f_late_in _ _ _ R).
+  - apply (f_late_nd _ _ _ R).
   - intros t m0 v. rewrite Co, Cu. intro Hin. destruct (f_own_ret _ _ _ R t m0 v Hin) as [A B]. split; [exact A|]. intros z Ez. destruct (B z Ez) as [B1 B2]. split; [exact B1|apply Wk; exact B2].
   - intros t j. rewrite Co, Cu, Tp. intro Hin. destruct (f_own_pr _ _ _ R t j Hin) as [A [B C]].
     split; [intros m0 q E; destruct (A m0 q E) as [A1 A2]; split; [apply Wk; exact A1|exact A2]|split;
@@ -1127,6 +1135,7 @@ Section FIdle.
     (exists m0, In (ILock m0 (LPqCancelSet q)) (tcont (thr st' t))) \/ pcancel (pps st q) = true.
   Hypothesis O_own_cs : forall m0 q, In (ILock m0 (LPqCancelSet q)) (tcont (thr st' t)) -> t = main /\ c = CPDrop q /\ pexists (pps st q) = true.
   Hypothesis O_late_cur : is_late m' t -> wcmd c.
+  Hypothesis O_late_nd : NoDup (map fst (m14_late m')).
   Hypothesis O_own_ret : forall m0 v, ~ In (IUnlock m0 (URet v)) (tcont (thr st' t)).
   Hypothesis O_own_pr : forall j, In j (tcont (thr st' t)) ->
     (forall m0 q, j = ILock m0 (LPqRecv q) \/ j = ICvReacq q -> wkr st t /\ c = CRecv /\ q = tpipe (thr st t)) /\
@@ -1164,6 +1173,10 @@ Section FIdle.
       rewrite (Ho u Hu) in *. apply (f_own_cs _ _ _ R u m0 q Hin).
     - intros u L. destruct (Nat.eq_dec u t) as [->|Hu]; [exists c; split; [exact Hcu|apply O_late_cur; exact L]|].
       apply (La u Hu) in L. rewrite (Ho u Hu). apply (f_late_cur _ _ _ R u L).
+    - intros u Hin. destruct (Nat.eq_dec u t) as [->|Hu]; [rewrite Hcu; discriminate|]. rewrite (Ho u Hu). apply (f_late_in _ _ _ R u).
+      destruct (get_tid u (m14_late m)) eqn:G; [|exfalso; apply get_tid_none in Hin; [exact Hin|rewrite (M4 u Hu); exact G]].
+      destruct (in_dec Nat.eq_dec u (map fst (m14_late m))) as [Y|Y]; [exact Y|]. apply get_tid_none in Y. rewrite Y in G. discriminate G.
+    - exact O_late_nd.
     - intros u m0 v Hin. destruct (Nat.eq_dec u t) as [->|Hu]; [exfalso; exact (O_own_ret m0 v Hin)|].
       rewrite (Ho u Hu) in *. destruct (f_own_ret _ _ _ R u m0 v Hin) as [A B]. split; [exact A|]. intros z Ez. destruct (B z Ez) as [B1 B2]. split; [exact B1|apply Wk; exact B2].
     - intros u j Hin. destruct (Nat.eq_dec u t) as [->|Hu].
@@ -1211,6 +1224,7 @@ Proof.
   - intros q E. subst c. destruct Nc.
   - intros m0 q Hin. exfalso. exact (proj1 (proj2 (proj2 (proj2 (proj2 (fq_facts _ (Fqn _ Hin)))))) m0 q eq_refl).
   - intro L. exfalso. exact (NoLate m' M4 L).
+  - rewrite M4. apply (f_late_nd _ _ _ R).
   - intros m0 v Hin. exact (proj1 (proj2 (proj2 (proj2 (proj2 (proj2 (fq_facts _ (Fqn _ Hin))))))) m0 v eq_refl).
   - intros j Hin. destruct (fq_facts _ (Fqn _ Hin)) as [_ [_ [_ [_ [_ [_ [Z1 [Z2 [Z3 Z4]]]]]]]]].
     split; [intros m0 q [E|E]; exfalso; [exact (Z1 m0 q E)|exact (Z2 q E)]|split; [intros m0 q E; exfalso; exact (Z3 m0 q E)|intros m0 q x E; exfalso; exact (Z4 m0 q x E)]].
@@ -1268,6 +1282,8 @@ Proof.
   - intros u m0 q0 Hin. destruct (Nat.eq_dec u u0) as [->|Ne]; [rewrite Hc0' in Hin; destruct Hin|]. rewrite (Ho u Ne) in *.
     destruct (f_own_cs _ _ _ R u m0 q0 Hin) as [A [B C]]. rewrite (Pex q0 C). auto.
   - intros u L. destruct (Nat.eq_dec u u0) as [->|Ne]; [exfalso; exact (NoL L)|]. rewrite (Ho u Ne). apply (f_late_cur _ _ _ R u L).
+  - intros u Hin. destruct (Nat.eq_dec u u0) as [->|Ne]; [exfalso; apply (f_late_in _ _ _ R u0 Hin); exact Hcu0|]. rewrite (Ho u Ne). apply (f_late_in _ _ _ R u Hin).
+  - apply (f_late_nd _ _ _ R).
   - intros u m0 v Hin. destruct (Nat.eq_dec u u0) as [->|Ne]; [rewrite Hc0' in Hin; destruct Hin|]. rewrite (Ho u Ne) in *.
     destruct (f_own_ret _ _ _ R u m0 v Hin) as [A B]. split; [exact A|]. intros z Ez. destruct (B z Ez) as [B1 B2]. split; [exact B1|apply Wk; right; split; [exact Ne|exact B2]].
   - intros u j Hin. destruct (Nat.eq_dec u u0) as [->|Ne]; [rewrite Hc0' in Hin; destruct Hin|]. rewrite (Ho u Ne) in *.
@@ -1347,6 +1363,7 @@ Proof.
   - intros q Y. subst c. destruct Wc.
   - intros m0 q Hin. exfalso. rewrite Hc2 in Hin. destruct Hin as [Y|[]]. exact (Ia2 m0 q Y).
   - intros _. exact Wc.
+  - rewrite M4. cbn [map fst]. constructor; [|apply (f_late_nd _ _ _ R)]. intro Hin. apply (f_late_in _ _ _ R t Hin). exact Hcu0.
   - intros m0 v Hin. rewrite Hc2 in Hin. destruct Hin as [Y|[]]. exact (Nu m0 v Y).
   - intros j Hin. rewrite Hc2 in Hin. destruct Hin as [<-|[]]. destruct Own as [O1 [O2 O3]].
     split; [intros m0 q Y; destruct (O1 m0 q Y); auto|split; [intros m0 q Y; destruct (O2 m0 q Y); auto|intros m0 q x Y; destruct (O3 m0 q x Y); auto]].
@@ -1502,6 +1519,7 @@ Proof.
       * intros q Y. discriminate Y.
       * intros m0 q Hin. rewrite Hc1 in Hin. destruct Hin.
       * intro L. exfalso. exact (NoLate L).
+      * rewrite M4. apply (f_late_nd _ _ _ R).
       * intros m0 v Hin. rewrite Hc1 in Hin. destruct Hin.
       * intros j Hin. rewrite Hc1 in Hin. destruct Hin.
       * intros [].
@@ -1537,6 +1555,7 @@ Proof.
       * intros q Y. discriminate Y.
       * intros m0 q Hin. rewrite Hc2 in Hin. destruct Hin as [Y|[]]. discriminate Y.
       * intro L. exfalso. exact (NoLate L).
+      * rewrite M4. apply (f_late_nd _ _ _ R).
       * intros m0 v Hin. rewrite Hc2 in Hin. destruct Hin as [Y|[]]. discriminate Y.
       * intros j Hin. rewrite Hc2 in Hin. destruct Hin as [<-|[]].
         split; [intros m0 q [Y|Y]; discriminate Y|split; [intros m0 q Y; discriminate Y|intros m0 q y Y; discriminate Y]].
@@ -1571,6 +1590,7 @@ Proof.
       * intros q Y Np. exfalso. inversion Y; subst q. apply Np. reflexivity.
       * intros m0 q Hin. rewrite Hc1 in Hin. destruct Hin.
       * intro L. exfalso. exact (NoLate L).
+      * rewrite M4. apply (f_late_nd _ _ _ R).
       * intros m0 v Hin. rewrite Hc1 in Hin. destruct Hin.
       * intros j Hin. rewrite Hc1 in Hin. destruct Hin.
       * intros [].
@@ -1604,6 +1624,7 @@ Proof.
       * intros q Y _. inversion Y; subst q. left. exists (MPq p0). rewrite Hc2. left. reflexivity.
       * intros m0 q Hin. rewrite Hc2 in Hin. destruct Hin as [Y|[]]. inversion Y; subst. auto.
       * intro L. exfalso. exact (NoLate L).
+      * rewrite M4. apply (f_late_nd _ _ _ R).
       * intros m0 v Hin. rewrite Hc2 in Hin. destruct Hin as [Y|[]]. discriminate Y.
       * intros j Hin. rewrite Hc2 in Hin. destruct Hin as [<-|[]].
         split; [intros m0 q [Y|Y]; discriminate Y|split; [intros m0 q Y; discriminate Y|intros m0 q y Y; discriminate Y]].
@@ -1623,7 +1644,7 @@ Proof.
         [reflexivity|intros u Hu; unfold s1; thr_simpl|exact Hcu1|unfold s1; thr_simpl|intro q; repeat split; auto|exact M2|exact M3|intros u _; rewrite M4; reflexivity
         |intros u q y Y; discriminate Y|intros u q Y; discriminate Y| | |intros W; exfalso; exact (Nw W)|intros W; exfalso; exact (Nw W)
         |intros m0 q y Hin; rewrite Hc1 in Hin; destruct Hin|intros q y Y; discriminate Y|intros q Y; discriminate Y|intros m0 q Hin; rewrite Hc1 in Hin; destruct Hin
-        |intro L0; exfalso; exact (NoLate L0)|intros m0 v Hin; rewrite Hc1 in Hin; destruct Hin|intros j Hin; rewrite Hc1 in Hin; destruct Hin
+        |intro L0; exfalso; exact (NoLate L0)|rewrite M4; apply (f_late_nd _ _ _ R)|intros m0 v Hin; rewrite Hc1 in Hin; destruct Hin|intros j Hin; rewrite Hc1 in Hin; destruct Hin
         |intros _; rewrite Hc1; split; [cbn; lia|cbn; intro Y; lia]].
       * intros q Hq. unfold dps. rewrite M1, Mc1. destruct (f_noex _ _ _ R q Hq) as [A [_ [_ [_ [_ [_ B]]]]]]. auto.
       * intros u W. cbn zeta. unfold dps. rewrite M1, Mc1. pose proof (f_ps _ _ _ R u W) as L1. cbn zeta in L1. unfold dps in L1. rewrite L1.
@@ -1645,7 +1666,7 @@ Proof.
         [reflexivity|intros u Hu; unfold s1; thr_simpl|exact Hcu1|unfold s1; thr_simpl|intro q; repeat split; auto|exact M2|exact M3|intros u _; rewrite M4; reflexivity
         |intros u q y Y; discriminate Y|intros u q Y; discriminate Y| | |intros W; exfalso; exact (Nw W)|intros W; exfalso; exact (Nw W)
         |intros m0 q y Hin; rewrite Hc1 in Hin; destruct Hin|intros q y Y; discriminate Y|intros q Y; discriminate Y|intros m0 q Hin; rewrite Hc1 in Hin; destruct Hin
-        |intro L0; exfalso; exact (NoLate L0)|intros m0 v Hin; rewrite Hc1 in Hin; destruct Hin|intros j Hin; rewrite Hc1 in Hin; destruct Hin
+        |intro L0; exfalso; exact (NoLate L0)|rewrite M4; apply (f_late_nd _ _ _ R)|intros m0 v Hin; rewrite Hc1 in Hin; destruct Hin|intros j Hin; rewrite Hc1 in Hin; destruct Hin
         |intros _; rewrite Hc1; split; [cbn; lia|cbn; intro Y; lia]].
       * intros q Hq. unfold dps. rewrite M1, Mc1. destruct (f_noex _ _ _ R q Hq) as [A [_ [_ [_ [_ [_ B]]]]]]. auto.
       * intros u W. cbn zeta. unfold dps. rewrite M1, Mc1. pose proof (f_ps _ _ _ R u W) as L1. cbn zeta in L1. unfold dps in L1. rewrite L1.
@@ -1667,7 +1688,7 @@ Proof.
         [reflexivity|intros u Hu; unfold s1; thr_simpl|exact Hcu1|unfold s1; thr_simpl|intro q; repeat split; auto|exact M2|exact M3|intros u _; rewrite M4; reflexivity
         |intros u q y Y; discriminate Y|intros u q Y; discriminate Y| | |intros W; exfalso; exact (Nw W)|intros W; exfalso; exact (Nw W)
         |intros m0 q y Hin; rewrite Hc1 in Hin; destruct Hin|intros q y Y; discriminate Y|intros q Y; discriminate Y|intros m0 q Hin; rewrite Hc1 in Hin; destruct Hin
-        |intro L0; exfalso; exact (NoLate L0)|intros m0 v Hin; rewrite Hc1 in Hin; destruct Hin|intros j Hin; rewrite Hc1 in Hin; destruct Hin
+        |intro L0; exfalso; exact (NoLate L0)|rewrite M4; apply (f_late_nd _ _ _ R)|intros m0 v Hin; rewrite Hc1 in Hin; destruct Hin|intros j Hin; rewrite Hc1 in Hin; destruct Hin
         |intros _; rewrite Hc1; split; [cbn; lia|cbn; intro Y; lia]].
       * intros q Hq. unfold dps. rewrite M1, Mc1. destruct (f_noex _ _ _ R q Hq) as [A [_ [_ [_ [_ [_ B]]]]]]. auto.
       * intros u W. cbn zeta. unfold dps. rewrite M1, Mc1. pose proof (f_ps _ _ _ R u W) as L1. cbn zeta in L1. unfold dps in L1. rewrite L1.
